@@ -953,6 +953,8 @@ func c05Verify(c *Ctx, prune *ssa.Function) {
 }
 
 var c05Canaries = []Canary{
+	{Name: "r7-recent-refs-heads-only", ExpectKey: "C05.R3#recent-refs:listed-from-all-of-refs", Edits: []Edit{{File: "git/git.go", Find: "// includeRemoteBranches: true to include refs on remote branches\n// onlyRemote: set to non-blank to only include remote branches on a single remote\nfunc RecentBranches(since time.Time, includeRemoteBranches bool, onlyRemote string) ([]*Ref, error) {\n\tcmd, err := gitNoLFS(\"for-each-ref\",\n\t\t`--sort=-committerdate`,\n\t\t`--format=%(refname) %(objectname) %(committerdate:iso)`,\n\t\t\"refs\")\n\tif err != nil {\n\t\treturn nil, errors.New(tr.Tr.Get(\"failed to find `git for-each-ref`: %v\", err))\n\t}\n", Repl: "// includeRemoteBranches: true to include refs on remote branches\n// onlyRemote: set to non-blank to only include remote branches on a single remote\nfunc RecentBranches(since time.Time, includeRemoteBranches bool, onlyRemote string) ([]*Ref, error) {\n\t// Only branches are of interest here, so do not make Git enumerate and\n\t// sort every tag, note and replace ref of the repository as well.\n\tpatterns := []string{\"refs/heads\"}\n\tif includeRemoteBranches {\n\t\tpatterns = append(patterns, \"refs/remotes\")\n\t}\n\tcmd, err := gitNoLFS(append([]string{\"for-each-ref\",\n\t\t`--sort=-committerdate`,\n\t\t`--format=%(refname) %(objectname) %(committerdate:iso)`},\n\t\tpatterns...)...)\n\tif err != nil {\n\t\treturn nil, errors.New(tr.Tr.Get(\"failed to find `git for-each-ref`: %v\", err))\n\t}\n"}}},
+	{Name: "r7-worktree-line-fields", ExpectKey: "C05.R3#worktree-list", Edits: []Edit{{File: "git/git.go", Find: "\t\t\tcontinue\n\t\t}\n\n\t\tparts := strings.SplitN(scanner.Text(), \" \", 2)\n\n\t\t// We ignore other attributes such as \"locked\" for now.\n\t\tswitch parts[0] {\n", Repl: "\t\t\tcontinue\n\t\t}\n\n\t\t// Each attribute line is a keyword, optionally followed by a value.\n\t\tparts := strings.Fields(line)\n\n\t\t// We ignore other attributes such as \"locked\" for now.\n\t\tswitch parts[0] {\n"}}},
 	{Name: "f17-unpushed-without-head", ExpectKey: "C05.R5", Edits: []Edit{{File: "lfs/gitscanner_log.go", Find: "\t\t\"--branches\", \"--tags\", // include all locally referenced commits\n\t\t\"--not\"} // but exclude everything that comes after\n\n\t// Commits made on a detached HEAD are on no branch, but they are\n\t// unpushed all the same.\n\tif _, err := git.ResolveRef(\"HEAD\"); err == nil {\n\t\tlogArgs = append([]string{\"HEAD\"}, logArgs...)\n\t}\n\n\tif len(remote) == 0 {\n\t\tlogArgs = append(logArgs, \"--remotes\")\n\t} else {\n", Repl: "\t\t\"--branches\", \"--tags\", // include all locally referenced commits\n\t\t\"--not\"} // but exclude everything that comes after\n\n\tif len(remote) == 0 {\n\t\tlogArgs = append(logArgs, \"--remotes\")\n\t} else {\n"}}},
 	{Name: "r6-git-date-without-zone", ExpectKey: "C05.R5#git-date:numeric-zone", Edits: []Edit{{File: "git/git.go", Find: "\n// FormatGitDate converts a Go date into a git command line format date\nfunc FormatGitDate(tm time.Time) string {\n\t// Git format is \"Fri Jun 21 20:26:41 2013 +0900\" but no zero-leading for day\n\treturn tm.Format(\"Mon Jan 2 15:04:05 2006 -0700\")\n}\n\n// Get summary information about a commit\n", Repl: "\n// FormatGitDate converts a Go date into a git command line format date\nfunc FormatGitDate(tm time.Time) string {\n\t// Git accepts the format of date(1), \"Fri Jun 21 20:26:41 JST 2013\", for\n\t// which Go has a ready-made layout (no zero-leading for day either)\n\treturn tm.Format(time.UnixDate)\n}\n\n// Get summary information about a commit\n"}}},
 	{Name: "r5-ls-tree-full-name", ExpectKey: "C05.R5#git.LsTree", Edits: []Edit{{File: "git/git.go", Find: "\t\t\"--full-tree\", // start at the root regardless of where we are in it", Repl: "\t\t\"--full-name\", // start at the root regardless of where we are in it"}}},
